@@ -90,3 +90,42 @@ def finite_numbers(obj, path="") -> Iterator[Tuple[str, float]]:
     elif isinstance(obj, (list, tuple)):
         for i, v in enumerate(obj):
             yield from finite_numbers(v, f"{path}[{i}]")
+
+
+def traverse_targets(master):
+    """[(zone_path, zone, target_key, EnergyTarget)] in the order the service serialises its records."""
+    out = []
+    for path, z in walk(master):
+        for key, t in z.targets.items():
+            out.append((path, z, key, t))
+    # _get_report lists a zone's targets, then recurses: identical to the pre-order walk above
+    return out
+
+
+def aligned_records(out, master):
+    """Pairs every serialised record with the zone/target object it came from; None if the orders disagree."""
+    tr = traverse_targets(master)
+    if len(tr) != len(out.targets):
+        return None
+    pairs = []
+    for (path, z, key, t), r in zip(tr, out.targets):
+        if r.name != key:
+            return None
+        pairs.append((path, z, key, t, r))
+    return pairs
+
+
+def kind_of_record(name: str) -> str:
+    return name.rsplit("/", 1)[1] if "/" in name else ""
+
+
+def duties(problem, idxs):
+    hot = cold = 0.0
+    from .alphabet import kind_of
+    for i in idxs:
+        st = st_of(problem["streams"][i])
+        if kind_of(st) == "H":
+            hot += abs(st[2])
+        else:
+            cold += abs(st[2])
+    return hot, cold
